@@ -247,7 +247,7 @@ def govUpdate (s : State) (list : List Nat) : State × Res :=
 
 /-- `BondedOracle` -/
 def bond (s : State) (o b e v amt : Nat) : State × Res :=
-  if bondChecksProposal && !s.proposal.contains o then (s, .err "not-proposal")
+  if bondChecksProposal && !s.proposal.contains o then (s, .err "no-oracle")
   else if bondChecksOracle && Store.has s.oracles o then (s, .err "exists")
   else if bondChecksBridger && Store.has s.byBridger b then (s, .err "bridger-bound")
   else if bondChecksExt && Store.has s.byExt e then (s, .err "ext-bound")
@@ -267,7 +267,7 @@ def bond (s : State) (o b e v amt : Nat) : State × Res :=
 
 /-- `AddDelegate` -/
 def addDelegate (s : State) (o amt : Nat) : State × Res :=
-  if !s.proposal.contains o then (s, .err "not-proposal") else
+  if !s.proposal.contains o then (s, .err "no-oracle") else
   match Store.get s.oracles o with
   | none => (s, .err "no-oracle")
   | some r =>
@@ -379,8 +379,8 @@ def confirm (s : State) (k : Kind) (n e b : Nat) (sigOk : Bool) : State × Res :
     match Store.get s.oracles a with
     | none => (s, .err "no-oracle")
     | some r =>
-      if r.ext != e then (s, .err "ext-mismatch")
-      else if r.bridger != b then (s, .err "bridger-mismatch")
+      if r.ext != e then (s, .err "mismatch")
+      else if r.bridger != b then (s, .err "mismatch")
       else if !sigOk then (s, .err "sig")
       else if (confs s k).any (fun c => c.nonce == n && c.oracle == a) then (s, .err "dup")
       else (setConfs s k (confs s k ++ [⟨n, a, e⟩]), .ok)
